@@ -103,7 +103,12 @@ func genPoolMoney(r *rand.Rand, idx int, emit func(string)) {
 			g.update(pick(r, []string{"n0", "n1"}), "good", []string{"n6", "n7"}, 5*minute)
 		case k < 16:
 			w := pick(r, []string{"w0", "w0", "w1", "w2"})
-			emit(fmt.Sprintf("withdraw %s %s %s settle=%s", w, g.n(), pick(r, []string{"good", "good", "good", "good", "bad", "otherkey"}), pick(r, []string{"ok", "ok", "ok", "fail"})))
+			during := ""
+			if r.Intn(3) == 0 {
+				// a host of some wallet earns while this wallet's settlement is in flight
+				during = fmt.Sprintf(" during=%s:%s", pick(r, []string{"n0", "n0", "n1", "n6"}), pick(r, []string{"1000", "1", "777", "18446744073709551629"}))
+			}
+			emit(fmt.Sprintf("withdraw %s %s %s settle=%s%s", w, g.n(), pick(r, []string{"good", "good", "good", "good", "bad", "otherkey"}), pick(r, []string{"ok", "ok", "ok", "fail"}), during))
 			if r.Intn(2) == 0 {
 				g.dump()
 				// an immediate repeat of the withdrawal must not pay the same earnings again
@@ -284,6 +289,18 @@ func genPoolNonce(r *rand.Rand, idx int, emit func(string)) {
 			nonce = g.nonce
 		}
 		nt := TTok(nonce)
+		usig := sig
+		if sig == "good" && nonce == g.nonce && idx%4 == 1 && i == 3 {
+			// a genuine signature that looks like another encoding ("0x...") is still the node's own signature
+			emit(fmt.Sprintf("update %s %s good0x block=5 peers= mnow=%s", who, nt, TTok(0)))
+			g.nonce += 200 * int64(time.Microsecond) // the harness moves the nonce forward by up to 60000 ns
+			last[who] = g.nonce
+			g.dump()
+			continue
+		}
+		if sig == "good" && r.Intn(3) == 0 {
+			usig = "oldfmt" // an old agent signs the deprecated payload layout: same replay protection
+		}
 		switch r.Intn(9) {
 		case 7:
 			emit(fmt.Sprintf("host %s %s %s %s geth uset=1 uhost=4.4.4.8 uport=~ uuser=%s ubad=0 src=~ payout=~", pick(r, []string{"c3", "c4"}), who, nt, sig, who))
@@ -292,7 +309,7 @@ func genPoolNonce(r *rand.Rand, idx int, emit func(string)) {
 		case 0:
 			emit(fmt.Sprintf("connect %s %s %s %s %s geth uset=1 uhost=4.4.4.9 uport=~ uuser=%s ubad=0 src=~ payout=~", pick(r, []string{"c3", "c4"}), who, nt, sig, B(who == "n0"), who))
 		case 1, 2:
-			emit(fmt.Sprintf("update %s %s %s block=3 peers=n0 mnow=%s", who, nt, sig, TTok(minute)))
+			emit(fmt.Sprintf("update %s %s %s block=3 peers=n0 mnow=%s", who, nt, usig, TTok(minute)))
 		case 3:
 			emit(fmt.Sprintf("peer %s %s %s num=1 kind=~ outcomes=", who, nt, sig))
 		case 4:
@@ -304,7 +321,7 @@ func genPoolNonce(r *rand.Rand, idx int, emit func(string)) {
 			emit(fmt.Sprintf("withdraw %s %s %s settle=ok", w, nt, sig))
 			who = w
 		default:
-			emit(fmt.Sprintf("update %s %s %s block=4 peers= mnow=%s", who, nt, sig, TTok(0)))
+			emit(fmt.Sprintf("update %s %s %s block=4 peers= mnow=%s", who, nt, usig, TTok(0)))
 		}
 		if sig == "good" && nonce > last[who] && nonce > -900*sec {
 			last[who] = nonce
@@ -368,6 +385,13 @@ func genPoolPeers(r *rand.Rand, idx int, emit func(string)) {
 		case k < 16:
 			// reconnect of a host on a new (or the same) connection
 			h := r.Intn(nh)
+			if r.Intn(4) == 0 {
+				// ... or somebody else's refused attempt to register under that host's identity: the registry must
+				// not move
+				emit(fmt.Sprintf("connect c%d n%d %s %s 1 geth uset=1 uhost=5.5.5.%d uport=~ uuser=n%d ubad=0 src=~ payout=~", r.Intn(nh+2), h, g.n(),
+					pick(r, []string{"bad", "otherkey", "garbage", "wrongnonce", "otherident"}), h, h))
+				break
+			}
 			g.host("n"+strconv.Itoa(h), "c"+strconv.Itoa(r.Intn(nh+2)), "5.5.5."+strconv.Itoa(h), pick(r, kinds))
 		case k < 18:
 			g.update("n7", "good", []string{"n" + strconv.Itoa(r.Intn(nh))}, 0)
